@@ -34,9 +34,10 @@ def main():
             checks = a.split("=", 1)[1].split(",")
     wt = f"/tmp/eval-{sid}"
     sh(f"git -C /repo worktree remove --force {wt}")
-    r = sh(f"git -C /repo worktree add -q --detach {wt} HEAD")
+    base = os.environ.get("EVAL_BASE", "HEAD")  # the commit the seeded change was written against
+    r = sh(f"git -C /repo worktree add -q --detach {wt} {base}")
     assert r.returncode == 0, r.stderr
-    meta = {"seed": sid, "property": prop, "repo_head": sh("git -C /repo rev-parse HEAD").stdout.strip(), "ran": []}
+    meta = {"seed": sid, "property": prop, "repo_head": sh(f"git -C /repo rev-parse {os.environ.get('EVAL_BASE', 'HEAD')}").stdout.strip(), "ran": []}
     try:
         env = f"cd {wt} && PYTHONPATH={wt} "
         # the demo is run from inside the scratch worktree: Python puts the script's own directory first on sys.path
